@@ -50,10 +50,10 @@ Profile profile_for(const std::string &c) {
     } else if (c == "C08") {
         set(p.w_driver, {{LIFE, 12}, {MSG, 50}, {SUBS, 12}, {BATCH, 8}});
         set(p.w_script, {{LIFE, 10}, {MSG, 50}, {CTX, 10}, {BATCH, 6}, {STASH, 4}});
-        p.mod_flag_bits = 0; p.src_kinds = 0; p.sub_flag_bits = 0;
+        p.mod_flag_bits = 0; p.src_kinds = 0; p.sub_flag_bits = 16 | 32;   // (low/high priority subscriptions: parked and urgent messages keep the send order too)
     } else if (c == "C09") {
-        set(p.w_driver, {{SRC, 56}, {SUBS, 16}, {LIFE, 14}, {REG, 3}, {ENV, 4}, {MSG, 8}});
-        set(p.w_script, {{SRC, 36}, {SUBS, 12}, {LIFE, 10}, {CTX, 8}, {MSG, 8}});
+        set(p.w_driver, {{SRC, 56}, {SUBS, 16}, {LIFE, 14}, {REG, 3}, {ENV, 4}, {MSG, 8}, {BATCH, 4}});   // (the batch time-out is an internal timer living next to the user's)
+        set(p.w_script, {{SRC, 36}, {SUBS, 12}, {LIFE, 10}, {CTX, 8}, {MSG, 8}, {BATCH, 2}});
         p.mod_flag_bits = 0; p.src_kinds = 127; p.src_flag_bits = 1 | 2 | 4; p.sub_flag_bits = 1 | 2 | 4 | 16 | 32; p.bad_params = true; p.bad_topics = true;
     } else if (c == "C13") {
         set(p.w_driver, {{BATCH, 24}, {MSG, 36}, {SUBS, 16}, {SRC, 8}, {ENV, 8}, {LIFE, 10}, {TB, 3}});   // (a token bucket brings another internal timer next to the batch timer)
@@ -96,6 +96,8 @@ struct Gen {
     Program p;
     int nmods = 0;
     bool tasks_in_program = false;
+    bool batching_mode = false;   // C09: this program configures batch time-outs (internal timers next to the user's) and therefore uses no one-shot source:
+                                  // a one-shot source leaves its set when its event is received, which with batching is not when it is handed over
     bool thorough = false;
     std::string camp;
 
@@ -152,6 +154,7 @@ struct Gen {
                 // C09 compares set sizes at call boundaries: a LOW one-shot subscription is consumed when its message is received but the
                 // event is handed over later (with the next invocation), so its membership is not observable in between: not generated there
                 if ((camp == "C09" || camp == "C03") && (fl & 1)) fl &= ~16L;
+                if (batching_mode) fl &= ~1L;
                 long mod = rmod(), topic = rtopic(true);
                 p.add(where, "sub", {mod, topic, fl});
                 // bias: in-flight state around a one-shot subscription - a message pending for it, the topic subscribed again with other
@@ -167,9 +170,10 @@ struct Gen {
         case SRC: {
             if (!pf.src_kinds) { gen_op(where, MSG, in_cb); break; }
             int kind;
-            do { kind = (int)r.below(7); } while (!((pf.src_kinds >> kind) & 1) || (kind == 5 && !tasks_in_program && (pf.src_kinds & ~32)));
+            do { kind = (int)r.below(7); } while (!((pf.src_kinds >> kind) & 1) || (kind == 5 && !tasks_in_program && (pf.src_kinds & ~32)) || (batching_mode && kind >= 4));
             bool reg = r.chance(0.68);
             long fl = rbits(pf.src_flag_bits, 0.25);
+            if (batching_mode) fl &= ~1L;
             bool bad = pf.bad_params && r.chance(0.06);
             switch (kind) {
             case 0: p.add(where, reg ? "src_fd" : "unsrc_fd", {rmod(), (long)r.below(3), (camp == "C09" ? (fl & ~4L) : fl) | (bad ? 16 : 0)}); break;
@@ -215,6 +219,7 @@ struct Gen {
             else p.add(where, "unbecome", {rmod()});
             break;
         case BATCH:
+            if (camp == "C09" && !batching_mode) { gen_op(where, SRC, in_cb); break; }
             if (r.chance(0.6)) p.add(where, "batch_size", {rmod(), (long)(r.chance(0.2) ? 0 : r.range(1, 5))});
             else p.add(where, "batch_timeout", {rmod(), (long)(r.chance(0.2) ? 0 : r.range(2, 7))});
             break;
@@ -295,6 +300,7 @@ Program gen_core(const std::string &campaign, uint64_t seed, bool thorough) {
     p.set("fdpermod", 1);
     if (campaign == "C20") p.set("filefds", r.chance(0.5) ? 1 : 0);   // every third user descriptor is one epoll refuses
     g.tasks_in_program = (campaign == "C04" ? r.chance(0.6) : r.chance(0.3)) && (g.pf.src_kinds & 32);   // (only where task sources can be generated at all)
+    if (campaign == "C09" && r.chance(0.3)) { g.batching_mode = true; g.tasks_in_program = false; }
     p.set("tasks", g.tasks_in_program ? 1 : 0);
     bool dispatch_mode = r.chance(0.4);
     p.set("mode", dispatch_mode ? "dispatch" : "blocking");
